@@ -1,7 +1,7 @@
 """C18 - Newick, Nexus and FASTA exports encode the trees and sequences faithfully (structural clauses)."""
 from __future__ import annotations
 
-from . import scopes, lib_newick, lib_guards, lib_module, lib_py, lib_variant, lib_err
+from . import scopes, lib_newick, lib_guards, lib_module, lib_py, lib_variant, lib_err, lib_mem
 
 LEVEL = "other"
 EXPLANATION = ("Bounded writes in the C newick converter (typestate), exact root / precision / buffer guards, agreement of the fast "
@@ -35,3 +35,4 @@ def run(ctx):
     import re
     ctx.ob(rule, "precision", re.search(r"precision\s*<\s*0\s*\|\|\s*precision\s*>\s*17", src) is not None, tu.loc(fn.node), "precision < 0 || precision > 17 rejected")
     ctx.ob(rule, "buffer_size", re.search(r"buffer_size\s*<=\s*0", src) is not None, tu.loc(fn.node), "buffer_size <= 0 rejected")
+    lib_mem.c_lints(ctx, ctx.program(), scopes.lib_scope("C18"))
